@@ -6,10 +6,14 @@ prop(
               "evaluator written from docs/configuration.md",
     level="exploration",
     design_ref="DESIGN.md 2/C09",
+    needs_bin=True,
     stages=[
         dict(run="^TestPropSelect$",
              quick=dict(checks=24000, shards=16, timeout=600),
              thorough=dict(checks=800000, shards=16, timeout=7200)),
+        dict(run="^TestPropBinaryCommands$",
+             quick=dict(checks=48, shards=16, timeout=900),
+             thorough=dict(checks=960, shards=16, timeout=7200)),
     ],
     rule="1-4 rule{} blocks, each with 0-3 match and 0-3 ignore sub-blocks of 1-4 conditions over all nine kinds (path, name, kind, "
          "label, annotation, for, keep_firing_for, command, state; regexps from pools with partial-match traps, alternations, inner "
